@@ -19,17 +19,17 @@ open SkNet SkNet.LinOp SkNet.Convert
 /-! ## ★ denote_op : operator expressions -/
 
 /-- **denote_op.** Whatever expression `e` is evaluated successfully to an operator `o`
-(regularisations of Normalizer / Laplacian leaves non-negative), the dense matrix of `o` is the
+(any matrices, any regularisation values, any coefficients), the dense matrix of `o` is the
 matrix `e` denotes: same shape, same entries. By structural induction over `OpExpr`. -/
-theorem denote_op (e : OpExpr) (hreg : e.RegNonneg = true) (o : Op) (h : e.eval = .ok o) :
+theorem denote_op (e : OpExpr) (o : Op) (h : e.eval = .ok o) :
     Mat.Eqv o.dense e.denote :=
-  (OpExpr.denote_spec e hreg o h).2
+  (OpExpr.denote_spec e o h).2
 
 /-- **Applying the operator to a vector is multiplying by the dense matrix it denotes**:
 `operator.dot(x)` for the value of any expression. -/
-theorem denote_op_dot (e : OpExpr) (hreg : e.RegNonneg = true) (o : Op) (h : e.eval = .ok o)
+theorem denote_op_dot (e : OpExpr) (o : Op) (h : e.eval = .ok o)
     (v y : Vec) (hy : o.dot v = .ok y) : y = e.denote.mulVec v := by
-  obtain ⟨hw, he⟩ := OpExpr.denote_spec e hreg o h
+  obtain ⟨hw, he⟩ := OpExpr.denote_spec e o h
   unfold Op.dot at hy
   split at hy
   · rename_i hv
@@ -40,25 +40,25 @@ theorem denote_op_dot (e : OpExpr) (hreg : e.RegNonneg = true) (o : Op) (h : e.e
 
 /-- the dot product is refused exactly when the length of the vector is not the number of columns
 of the denoted matrix -/
-theorem denote_op_dot_error (e : OpExpr) (hreg : e.RegNonneg = true) (o : Op) (h : e.eval = .ok o) (v : Vec) :
+theorem denote_op_dot_error (e : OpExpr) (o : Op) (h : e.eval = .ok o) (v : Vec) :
     (o.dot v = .error .valueError) ↔ v.length ≠ e.denote.nCol := by
-  obtain ⟨hw, he⟩ := OpExpr.denote_spec e hreg o h
+  obtain ⟨hw, he⟩ := OpExpr.denote_spec e o h
   have hc : o.nCol = e.denote.nCol := by rw [← (Op.dense_shape o hw).2]; exact he.nCol
   unfold Op.dot
   rw [hc]
   by_cases hv : v.length = e.denote.nCol <;> simp [hv]
 
 /-- **Transposed**: `operator.T.dot(x)` multiplies by the transposed dense matrix. -/
-theorem denote_op_transpose_dot (e : OpExpr) (hreg : e.RegNonneg = true) (o : Op)
+theorem denote_op_transpose_dot (e : OpExpr) (o : Op)
     (h : (OpExpr.transpose e).eval = .ok o) (v y : Vec) (hy : o.dot v = .ok y) :
     y = e.denote.transpose.mulVec v :=
-  denote_op_dot (.transpose e) (by simpa [OpExpr.RegNonneg] using hreg) o h v y hy
+  denote_op_dot (.transpose e) o h v y hy
 
 /-- **2-d arrays**: `operator.dot(X)` (scipy stacks `_matvec` of the columns) is the matrix product
 by the dense matrix. -/
-theorem denote_op_dotMat (e : OpExpr) (hreg : e.RegNonneg = true) (o : Op) (h : e.eval = .ok o)
+theorem denote_op_dotMat (e : OpExpr) (o : Op) (h : e.eval = .ok o)
     (x y : Mat) (hy : o.dotMat x = .ok y) : Mat.Eqv y (e.denote.mul x) := by
-  obtain ⟨hw, he⟩ := OpExpr.denote_spec e hreg o h
+  obtain ⟨hw, he⟩ := OpExpr.denote_spec e o h
   exact (Op.dotMat_eqv hw hy).2.trans (Mat.Eqv.mul he (Mat.Eqv.refl x))
 
 /-- **the 2-d branches of `_matvec`** (SparseLR, Normalizer and its transposed product, CoNeighbor) multiply
@@ -72,16 +72,16 @@ theorem matvec2d_normalizer (n : Normalizer) (x : Mat) (hx : x.nRow = n.adj.nCol
 /-- **every 2-d branch**: a direct call `operator._matvec(X)` with a 2-d array (SparseLR, Normalizer and its
 transposed product, Laplacian, CoNeighbor, Polynome's Horner loop on matrices) multiplies by the dense matrix of
 the expression -/
-theorem denote_op_matvec2d (e : OpExpr) (hreg : e.RegNonneg = true) (o : Op) (h : e.eval = .ok o)
+theorem denote_op_matvec2d (e : OpExpr) (o : Op) (h : e.eval = .ok o)
     (x y : Mat) (hx : x.nRow = o.nCol) (hy : o.matvec2d x = .ok y) : Mat.Eqv y (e.denote.mul x) := by
-  obtain ⟨hw, he⟩ := OpExpr.denote_spec e hreg o h
+  obtain ⟨hw, he⟩ := OpExpr.denote_spec e o h
   exact (Op.matvec2d_eqv hw hx hy).trans (Mat.Eqv.mul he (Mat.Eqv.refl x))
 
 /-- **row, column and total sums of a SparseLR** are the sums of the dense matrix it denotes -/
-theorem slr_sums (e : OpExpr) (hreg : e.RegNonneg = true) (s : SLR) (h : e.eval = .ok (.slr s)) :
+theorem slr_sums (e : OpExpr) (s : SLR) (h : e.eval = .ok (.slr s)) :
     s.sum1 = e.denote.rowSums ∧ (∀ y, s.sum0 = .ok y → y = e.denote.transpose.rowSums) ∧
       s.sumAll = vsum e.denote.rowSums := by
-  obtain ⟨hw, he⟩ := OpExpr.denote_spec e hreg _ h
+  obtain ⟨hw, he⟩ := OpExpr.denote_spec e _ h
   have h1 : s.sum1 = e.denote.rowSums := by rw [SLR.sum1_eq]; exact Mat.Eqv.rowSums he
   refine ⟨h1, fun y hy => ?_, by unfold SLR.sumAll; rw [h1]⟩
   rw [SLR.sum0_eq hw hy]
@@ -93,7 +93,6 @@ def exampleExpr : OpExpr :=
   .transpose (.mul (.add (.slr ⟨2, 3, [[1, 2, 0], [0, 0, 0]]⟩ [([1, -1], [1, 0, 2])])
     (.regularizer ⟨2, 3, [[0, 0, 3], [0, 0, 0]]⟩ (1/2))) 2)
 
-example : exampleExpr.RegNonneg = true := by decide
 example : (exampleExpr.eval.toOption.map fun o => (o.nRow, o.nCol)) = some (3, 2) := by decide +kernel
 example : (exampleExpr.eval.toOption.bind fun o => (o.dot [1, 2]).toOption) = some [1, 5, 3] := by decide +kernel
 
@@ -101,14 +100,20 @@ example : (exampleExpr.eval.toOption.bind fun o => (o.dot [1, 2]).toOption) = so
 def exampleExpr2 : OpExpr :=
   .sub (.normalizer ⟨2, 2, [[0, 1], [0, 0]]⟩ 1) (.laplacian ⟨2, 2, [[0, 1], [0, 0]]⟩ 0 false [])
 
-example : exampleExpr2.RegNonneg = true := by decide
 example : (exampleExpr2.eval.toOption.bind fun o => (o.dot [1, 1]).toOption) = some [1, 1] := by decide +kernel
 
-/-- the hypothesis `RegNonneg` is needed: the code tests `regularization > 0`, so a negative value enters
-the degrees but not the product (outside the domain of the property) -/
-theorem normalizer_negative_regularization_differs :
-    ((OpExpr.normalizer ⟨1, 2, [[2, 2]]⟩ (-2)).eval.toOption.bind fun o => (o.dot [1, 0]).toOption) = some [1]
-      ∧ (OpExpr.normalizer ⟨1, 2, [[2, 2]]⟩ (-2)).denote.mulVec [1, 0] = [1/2] := by
+/-- before the repair (finding F16k) the code tested `regularization > 0`: a negative value entered the degrees but not
+the product. `pinnedNormalizerMatvec` is that product; on `A = [[2, 2]]`, `reg = -2` it gives `[1]` where the dense
+definition gives `[1/2]` (witness replayed in corpus/C15.jsonl); the repaired model agrees with the definition. -/
+def pinnedNormalizerMatvec (n : Normalizer) (v : Vec) : Vec :=
+  let prod := n.adj.mulVec v
+  let prod := if n.reg > 0 then tab n.adj.nRow fun i => vget prod i + n.reg * vmean v * 1 else prod
+  tab n.adj.nRow fun i => vget n.normDiag i * vget prod i
+
+theorem normalizer_negative_regularization_pinned_wrong :
+    pinnedNormalizerMatvec (Normalizer.init ⟨1, 2, [[2, 2]]⟩ (-2)) [1, 0] = [1]
+      ∧ (OpExpr.normalizer ⟨1, 2, [[2, 2]]⟩ (-2)).denote.mulVec [1, 0] = [1/2]
+      ∧ ((OpExpr.normalizer ⟨1, 2, [[2, 2]]⟩ (-2)).eval.toOption.bind fun o => (o.dot [1, 0]).toOption) = some [1/2] := by
   decide +kernel
 
 /-! ## one operator object used twice (finding F16i, recorded and not repaired) -/
@@ -135,7 +140,7 @@ to `shared_operand_full`: object identity; the repair (pure `__neg__` / `__mul__
 theorem shared_operand_partial (p : SharedPattern) (a : Mat) (nz : Bool) (o : Op)
     (h : (OpExpr.sharedPattern p a nz).eval = .ok o) (v y : Vec) (hy : o.dot v = .ok y) :
     y = (OpExpr.sharedPattern p a nz).denote.mulVec v :=
-  denote_op_dot _ (by cases p <;> rfl) o h v y hy
+  denote_op_dot _ o h v y hy
 
 /-! ## which expressions evaluate, which are refused -/
 
@@ -183,9 +188,9 @@ theorem normalizer_rmatvec (n : Normalizer) (v : Vec) : n.rmatvec v = n.dense.tr
   Normalizer.rmatvec_eq_dense n v
 
 /-- **Normalizer** denotes `D⁺ (A + reg/n 1 1ᵀ)` with `D` the row sums of the regularised matrix -/
-theorem normalizer_denote (a : Mat) (reg : Rat) (hreg : 0 ≤ reg) :
+theorem normalizer_denote (a : Mat) (reg : Rat) :
     Mat.Eqv (Normalizer.init a reg).dense (rowNormalized (regularized a reg)) :=
-  Normalizer.init_dense a reg hreg
+  Normalizer.init_dense a reg
 
 /-- before the repair `Normalizer._transpose` returned the operator itself: on the asymmetric
 `A = [[0,2,0],[0,0,0],[1,0,3]]` the product `N x` differs from `Nᵀ x` (witness replayed in corpus/C15.jsonl) -/
@@ -207,8 +212,8 @@ example : ∃ l, Laplacian.init ⟨2, 2, [[0, 1], [3, 0]]⟩ (1/2) false [] = .o
 /-- `laplacian_eq D − A`: the constructor gives `D' − A'` of the regularised adjacency, conjugated by
 `diag(1/sqrt(d'))⁺` when normalised -/
 theorem laplacian_denote (a : Mat) (reg : Rat) (nz : Bool) (sq : Vec) (l : Laplacian)
-    (h : Laplacian.init a reg nz sq = .ok l) (hreg : 0 ≤ reg) :
-    Mat.Eqv l.dense (OpExpr.laplacian a reg nz sq).denote := Laplacian.init_dense h hreg
+    (h : Laplacian.init a reg nz sq = .ok l) :
+    Mat.Eqv l.dense (OpExpr.laplacian a reg nz sq).denote := Laplacian.init_dense h
 
 /-- **CoNeighbor** denotes `A F⁺ Aᵀ`, its product is `backward (forward x)` -/
 theorem coneighbor_matvec (c : CoNeighbor) (v : Vec) : c.matvec v = c.dense.mulVec v :=
